@@ -20,8 +20,8 @@ def run(res, tier):
         '(WhenU, input_interface_sound, incl. quiescence), for SharedFuture inputs the composition with n instances of the C06 '
         'model with arbitrary other observers (WhenS, shared_input_interface_sound; entries synchronised, Retire() of the entered '
         'callback is C06 retire_moves_only_as_sole_owner; quiescence of WhenS is not lifted: not-lost per instance is C06 '
-        'quiescent_complete); that every shared input has its own callback node is the node theorem; a pack mixing unique and '
-        'shared inputs in one composed system is not modelled (each kind separately)',
+        'quiescent_complete); that every shared input has its own callback node is the node theorem; packs mixing unique and '
+        'shared inputs: WhenM (instance i of either kind), mixed_input_interface_sound',
         'every input eventually completes (a dropped Promise completes its Future with StopError), so "quiescent" means finished',
         '"first" / "last" refer to the linearisation order of the read-modify-write operations on the strategy word',
         'Any<LastFail>: 2 * count fits a size_t (count < 2^63); the dynamic WhenAny with one input returns that input itself '
